@@ -34,6 +34,9 @@ def tasks(tier, seed):
     # the threshold alpha * optimiser_.learning_rate reads the optimiser's *current* step size: contract on the installed optimisers
     from contracts import external_deps
     t += external_deps.softmax_tasks(tier, seed) + external_deps.optimiser_tasks(tier, seed)
+    # B: the same contracts replayed on the real code at a ladder of larger shapes (stand-in for the missing induction over sizes)
+    t.append(("contracts.size_ladder", "task", ("prox", tier, seed), 1500, "size ladder: proximal operators"))
+    t.append(("contracts.size_ladder", "task", ("selection", tier, seed), 1500, "size ladder: selection / inertness"))
     return t
 
 
